@@ -5,6 +5,7 @@ import (
 	"bytes"
 	"fmt"
 	"os"
+	"time"
 
 	"github.com/couchbase/moss"
 )
@@ -288,13 +289,20 @@ func famHistoryTree(w *bufio.Writer, seed uint64, n int) error {
 				}
 				before := (&H{store: s}).storeCounters()
 				b := g.nonEmptyBatch()
-				if childOnly {
+				dropAll := childOnly && rounds > 0 && r.chance(1, 6)
+				if dropAll {
+					// every child collection is dropped and nothing else: the footer written keeps no
+					// persisted segment at all, so that the NEXT round has to start a new data file
+					// (the store reaches its file only through a segment) - whose first footer must not
+					// claim a previous footer.  No key operation: the round is awaited through the store.
+					b = &tbatch{kids: []kid{{name: childNames[0], del: true}, {name: childNames[1], del: true}, {name: "ce", del: true}}}
+				} else if childOnly {
 					b.ops = nil
 					if len(b.kids) == 0 {
 						b.kids = []kid{{name: childNames[0], b: &tbatch{ops: []bop{{'s', []byte("k0"), g.value()}}}}}
 					}
 				}
-				if !hasKeyOps(b) {
+				if !dropAll && !hasKeyOps(b) {
 					// a round is waited for through the dirty gauges, which a batch without any key
 					// operation does not move (C20's subject): every batch here writes at least one key
 					if childOnly {
@@ -309,7 +317,7 @@ func famHistoryTree(w *bufio.Writer, seed uint64, n int) error {
 						b.ops = []bop{{'s', []byte("k1"), g.value()}}
 					}
 				}
-				if r.chance(1, 8) {
+				if !dropAll && r.chance(1, 8) {
 					// a child collection created (or touched) by an empty child batch: it exists, without any segment
 					b.kids = append(b.kids, kid{name: "ce", b: &tbatch{}})
 				}
@@ -323,6 +331,19 @@ func famHistoryTree(w *bufio.Writer, seed uint64, n int) error {
 					break
 				}
 				waitPersisted(c)
+				if dropAll {
+					// the gauges do not show a batch without key operations: wait until the store's
+					// footer has no child collection left (or 3 s: nothing had been persisted to drop)
+					for dl := time.Now().Add(3 * time.Second); time.Now().Before(dl); {
+						fs, _ := s.Snapshot()
+						names, _ := fs.ChildCollectionNames()
+						fs.Close()
+						if len(names) == 0 {
+							break
+						}
+						sleepMicros(500)
+					}
+				}
 				kind := (&H{store: s}).persistChoice(before)
 				fs, _ := s.Snapshot()
 				pos, file, dump, reads := footerTreeSx(fs)
